@@ -12,7 +12,9 @@ Theorems: coq/Properties/C11.v.  Ties (implementation vs coq/C11/Model.v):
   complement : CellConversion.pot_complement on generated cell tables vs
                Model.pot_complement
   split      : cellcard.split on cell cards carrying the expression
-Sweep (independent oracle): truth tables of the implementation's trees (after
+Sweep (independent oracle): whole decks through impl.convert, membership in
+the written volumes (t4eval) against the independent reading of the cards;
+truth tables of the implementation's trees (after
 parsing, and after complement elimination incl. the sequential loop of
 ConstructVolumeT4) against harness/mcnpref.py's evaluator of the abstract
 MCNP expression, for all sense assignments; invariance of the tree under all
@@ -1112,6 +1114,10 @@ def run(res, tier, seed, proofs_ok):
     t0 = time.time()
     run_split(res, rng, generated[:300 if quick else 3000])
     timings['split'] = time.time() - t0
+    # ---- 8. whole decks ----------------------------------------------------
+    t0 = time.time()
+    run_decks(res, rng, 150 if quick else 1500)
+    timings['decks'] = time.time() - t0
     res.extra['timings_s'] = {k: round(v, 1) for k, v in timings.items()}
 
 
@@ -1505,9 +1511,186 @@ def run_split(res, rng, texts):
                       found_input=False)
 
 
+# ---- whole decks: the expression all the way to the written VOLU lines -------
+DECK_SURFACES = [
+    {'id': 1, 'mn': 'px', 'params': [1.0], 'tr': None},
+    {'id': 2, 'mn': 'px', 'params': [-3.0], 'tr': None},
+    {'id': 3, 'mn': 'py', 'params': [0.5], 'tr': None},
+    {'id': 4, 'mn': 'pz', 'params': [-0.5], 'tr': None},
+    {'id': 10, 'mn': 'so', 'params': [6.0], 'tr': None},
+    {'id': 20, 'mn': 'rpp', 'params': [-1.0, 2.0, -2.0, 1.5, -3.0, 2.5],
+     'tr': None},
+]
+# expressions with a union one operand of which is patently empty (an
+# intersection holding a surface with both senses): written literally, produced
+# by a complement (De Morgan), produced by a macrobody next to its own facet
+DECK_CORPUS = [
+    '-10 (1 -1 : -2)', '(1 -1 : -2) -10', '#(1 : -1 : 2) : 3 4',
+    '(-20 20.1 : 20.3) 1', '-10 (3 -3 : 4 -4 : -1)', '(2 -2 : 1) (3 : 4 -4)',
+    '#(#(1 -1 : -2)) -10', '-10 #(3 : -3 : #(4))', '(-20 : 20.2 -20) -3',
+    '1 -1 : -10', '(-1 : 1 -1 2) : 3 -3', '-10 (1 : (2 -2 : 3 -3))',
+]
+DECK_LITS = [1, 2, 3, 4, 10, 20]
+
+
+def gen_deck_expr(rng, depth, cells):
+    r = rng.random()
+    if depth <= 0 or r < 0.3:
+        if cells and rng.random() < 0.15:
+            return ('#c', rng.choice(cells))
+        sid = rng.choice(DECK_LITS)
+        sub = rng.randint(1, 6) if sid == 20 and rng.random() < 0.5 else None
+        return ('s', sid * rng.choice([1, -1]), sub)
+    if r < 0.36:
+        # a patently empty intersection, to be placed wherever this lands
+        sid = rng.choice(DECK_LITS[:5])
+        return ('*', ('s', sid, None), ('s', -sid, None))
+    if r < 0.62:
+        return ('*', gen_deck_expr(rng, depth - 1, cells),
+                gen_deck_expr(rng, depth - 1, cells))
+    if r < 0.86:
+        return (':', gen_deck_expr(rng, depth - 1, cells),
+                gen_deck_expr(rng, depth - 1, cells))
+    if r < 0.95:
+        return ('#', gen_deck_expr(rng, depth - 1, cells))
+    return ('p', gen_deck_expr(rng, depth - 1, cells))
+
+
+def deck_points(rng, n):
+    '''points off the surfaces of DECK_SURFACES (grid offsets that avoid the
+    plane positions), inside and outside the sphere'''
+    pts = []
+    while len(pts) < n:
+        p = [round(rng.uniform(-7, 7), 3) + 0.0137 for _ in range(3)]
+        pts.append(p)
+    return pts
+
+
+def convert_deck(cell_texts):
+    '''(ConvResult, T4File or None) for a one-universe deck of void cells'''
+    import deck as deckmod
+    import impl
+    lines = ['C11 generated deck']
+    for cid, text in cell_texts.items():
+        lines.append(deckmod.wrap(f'{cid} 0 {text.strip()} imp:n=1'))
+    lines.append('')
+    lines.extend(deckmod.surface_text(surf) for surf in DECK_SURFACES)
+    lines.append('')
+    conv = impl.convert('\n'.join(lines) + '\n')
+    t4 = impl.T4File(conv.text) if conv.ok and conv.text else None
+    return conv, t4, '\n'.join(lines) + '\n'
+
+
+def check_deck(res, cell_texts, points, origin):
+    '''convert, then membership of every point in the written volume of every
+    cell against the independent reading of the card (c11_refparse + mcnpref);
+    a cell that owns a sample point must be written. Returns n failures.'''
+    import t4eval
+    exprs = {cid: c11_refparse.parse(t) for cid, t in cell_texts.items()}
+    if any(e is None for e in exprs.values()):
+        raise ValueError(f'generator wrote a text the reader rejects: '
+                         f'{cell_texts}')
+    conv, t4, text = convert_deck(cell_texts)
+    res.seen(text)
+    if t4 is None:
+        res.count(f'{origin}:conversion-failed')
+        res.violation('impl-violation',
+                      f'deck of well-formed cells {cell_texts} does not '
+                      f'convert: {conv.exc}: {conv.msg[:160]}',
+                      {'input': {'deck': text}}, found_input=True)
+        return 1
+    ref = mcnpref.Reference({'cells': [{'id': cid, 'expr': to_ref(e)}
+                                       for cid, e in exprs.items()],
+                             'surfaces': DECK_SURFACES, 'transforms': {}},
+                            eps=1e-6)
+    ev = t4eval.Evaluator(t4, eps=1e-6)
+    n_fail = 0
+    for cid in cell_texts:
+        nonempty = False
+        for p in points:
+            try:
+                want = ref.in_cell(cid, p)
+            except mcnpref.Ambiguous:
+                continue
+            nonempty = nonempty or want
+            if cid not in t4.volumes:
+                got = False
+            else:
+                try:
+                    got = ev.inside(cid, p)
+                except t4eval.T4EvalError as exc:
+                    if 'within eps' in str(exc):
+                        continue
+                    got = f'error: {exc}'
+            if got != want:
+                n_fail += 1
+                why = ('is not written to the file' if cid not in t4.volumes
+                       else f'written volume gives {got}')
+                res.violation('impl-violation',
+                              f'cell {cid} `{cell_texts[cid]}`: point {p} is '
+                              f'{"in" if want else "outside"} the MCNP cell, '
+                              f'{why}',
+                              {'input': {'deck': text, 'cell': cid,
+                                         'point': p},
+                               'expected': want, 'observed': str(got)},
+                              found_input=True)
+                break
+        res.count(f'{origin}:' + ('cell-nonempty' if nonempty else 'cell-empty')
+                  + ('' if cid in t4.volumes else ':not-written'))
+    return n_fail
+
+
+def run_decks(res, rng, n_decks):
+    '''the end-to-end sweep of the property: whole decks through
+    impl.convert, written VOLU lines evaluated by t4eval'''
+    points = deck_points(rng, 60)
+    n_fail = 0
+    corpus = {i + 1: text for i, text in enumerate(DECK_CORPUS)}
+    n_fail += check_deck(res, corpus, points, 'deck-corpus')
+    n_cells = len(corpus)
+    for _ in range(n_decks):
+        texts = {}
+        ids = []
+        for k in range(rng.randint(3, 7)):
+            cid = k + 1
+            for _try in range(40):
+                e = gen_deck_expr(rng, rng.randint(1, 4), ids)
+                if not has_cell_under_not(e):
+                    break
+            else:
+                e = ('s', 1, None)
+            text = render(e, random_layout(rng))
+            if c11_refparse.parse(text) is None:
+                # "#n+m" / "#n-m": accepted by the converter, not a spelling
+                # the independent reader knows; write it canonically
+                text = render(e, CANON)
+            texts[cid] = text
+            ids.append(cid)
+        # one cell that is certainly not empty: a deck all of whose cells are
+        # patently empty has nothing to write (the converter then stops with
+        # "max() iterable argument is empty"; not a geometry, outside C11)
+        texts[len(texts) + 1] = '10'
+        n_cells += len(texts)
+        n_fail += check_deck(res, texts, points, 'deck')
+    res.obligation(f'sweep:decks ({n_decks + 1} whole decks, {n_cells} cells '
+                   'converted with impl.convert; membership of 60 points in '
+                   'every written volume = the independent reading of the '
+                   'card; every cell owning a point is written)',
+                   n_fail == 0, f'{n_fail} cells differ')
+
+
 def replay(path):
     data = json.load(open(path))
     inp = data.get('input', {})
+    if 'deck' in inp:
+        import impl
+        conv = impl.convert(inp['deck'])
+        print('conversion:', conv)
+        if conv.text:
+            t4 = impl.T4File(conv.text)
+            print('written volumes:', sorted(t4.volumes))
+            if 'cell' in inp:
+                print('cell', inp['cell'], 'written:', inp['cell'] in t4.volumes)
     if 'card' in inp:
         print('split:', impl_split(inp['card']))
         model, _ = common.coq_eval(HEADER, f'split_card {cstr(inp["card"])}')
